@@ -135,7 +135,7 @@ Section Refine.
                    rewrite (mem_st_del_other gstr _ _ _ Hc). exact (HR t).
           -- (* live in the spec: the backend cannot have dropped it *)
              apply N.ltb_ge in Ex.
-             destruct (H1 r Hs Ex) as [d [Hm Hd]]. rewrite Em in Hm. injection Hm as Hm. subst dl.
+             destruct (H1 r Hs Ex) as [d [Hm Hd]]. assert (Hdl : dl = Some d) by congruence. subst dl.
              assert (Hm' : mem s (cell_of c n (wait_key c t0)) = Some (mkE (put_waiting c (cell_of c n (wait_key c t0)) r) (Some d)))
                by (rewrite cell_is_wcell; exact Em).
              rewrite (lookup_live_cell gstr enc dec decm of_addr to_addr keep c s n t0 r d Ht0 Hm' (codec r Hval) Ex).
